@@ -184,8 +184,12 @@ pub fn check(c: &Case) -> Outcome {
 }
 
 pub fn strategy() -> BoxedStrategy<Case> {
-    (prob_spec(4, 0.5, 8.0), span_mid(), any_method(), tols(4, 3.0, 9.0), any::<bool>(), proptest::option::weighted(0.2, log10(-1.5, 0.0)))
-        .prop_flat_map(|(prob, span, method, tol, aj, ms)| {
+    (prob_spec(4, 0.5, 8.0), prop_oneof![13 => span_mid().boxed(), 1 => span_far().boxed()], any_method(), tols(4, 3.0, 9.0), any::<bool>(), proptest::option::weighted(0.2, log10(-1.5, 0.0)))
+        .prop_flat_map(|(mut prob, span, method, tol, aj, ms)| {
+            // far from the origin: autonomous problems (the rounding of t would make the right-hand side noisy)
+            if span.x0.abs() > 1e4 {
+                prob.warp.k = 0;
+            }
             let n: usize = prob.blocks.iter().map(|b| b.dim()).sum();
             (Just((prob, span, method, tol, aj, ms)), recipes(n, 4, 0.5), proptest::option::weighted(0.4, places(12)), any::<bool>(), proptest::collection::vec(0u8..10, 8..=8))
         })
